@@ -3,7 +3,9 @@
 //!   * `arrl.compare`: `RbModel.ArrL.Compile.compile p` = the real instruction list, instruction for instruction
 //!     (positions, label names, resolved addresses);
 //!   * `arrl.run`: `RbModel.ArrL.Vm.run` on the model-compiled code = real outcome and stdout;
-//!   * `arrl.ref`: the big-step reference semantics `RbModel.ArrL.Ref.run` = real outcome and stdout.
+//!   * `arrl.ref`: the big-step reference semantics `RbModel.ArrL.Ref.run` = real outcome and stdout;
+//!   * `arrl.wf`: the premise checker `RbModel.ArrL.progWfB` of the simulation theorem `ArrL.compile_correct`
+//!     (`lean/Thm/ArrLSim.lean`), counted per program as `theorem-premise.progWfB-true` / `-false`.
 //! Usage for debugging: `c04l <file.bas>` prints the three answers for one program.
 
 use rb_harness::arrl_sx;
@@ -843,6 +845,23 @@ fn main() {
     let canswers = ask(&cases.iter().map(|c| format!("(arrl.compare {} {} {})", c.prog, c.tables, c.code)).collect::<Vec<_>>());
     let vanswers = ask(&cases.iter().map(|c| format!("(arrl.run {} {})", BUDGET, c.prog)).collect::<Vec<_>>());
     let ranswers = ask(&cases.iter().map(|c| format!("(arrl.ref {} {})", FUEL, c.prog)).collect::<Vec<_>>());
+    // how many explored programs satisfy the premise of ArrL.compile_correct (decided by the checker
+    // RbModel.ArrL.progWfB, proved sound in Thm/ArrLWf.lean)
+    let wanswers = ask(&cases.iter().map(|c| format!("(arrl.wf {})", c.prog)).collect::<Vec<_>>());
+    let mut outside_shown = 0;
+    for (k, a) in wanswers.iter().enumerate() {
+        if a.starts_with("(wf true") {
+            rep.bump("theorem-premise.progWfB-true");
+        } else if a.starts_with("(wf false") {
+            rep.bump("theorem-premise.progWfB-false");
+            if outside_shown < 2 {
+                outside_shown += 1;
+                rep.sample(J::s(format!("outside the premise of ArrL.compile_correct:\n{}", cases[k].text)));
+            }
+        } else {
+            rep.bump("theorem-premise.unreadable");
+        }
+    }
     let mut shrunk = 0;
     for (k, c) in cases.iter().enumerate() {
         let real = &reals[k];
